@@ -116,7 +116,7 @@ contract("monkeytype.tracing:CallTracer.__call__", props=["C02", "C03", "C17", "
                    "cache-wf": "forall(self.cache, lambda c: lookup(self.cache, c) is None or code_of(lookup(self.cache, c)) is c)"},
          ensures=_CALL_POSTS)
 
-contract("monkeytype.tracing:trace_calls", props=["C03", "C06"], theories=TH, pure=False,
+contract("monkeytype.tracing:trace_calls", props=["C03", "C06"], theories=TH, pure=True, hide="*",
          params={"logger": "Logger", "max_typed_dict_size": "Opt[int]", "code_filter": "Opt[Filter]", "sample_rate": "Opt[int]"}, result="none",
          ensures={"post:restore": "profiler() is old(profiler())",
                   "post:flush-once": "effects() is append(L_ghost_body_effects, tup('flush', logger))"},
@@ -153,3 +153,10 @@ contract("monkeytype.tracing:get_func", props=["C02", "C03"], theories=TH + ["cl
          loops={0: {"iter": "frame.f_globals.values()", "inv": {"none-yet": "func is None or callee_code(func) is code_of(frame)"}},
                 1: {"iter": "get_locals_from_previous_frames(frame)", "inv": {"none-yet": "func is None or callee_code(func) is code_of(frame)"}},
                 "tags": {"func": "Opt[Callee]"}})
+
+
+contract("monkeytype:trace", props=["C06", "C17", "C18", "C01"], theories=TH + ["cli"],
+         params={"config": "Opt[Config]"}, result="CM",
+         # the configured logger, filter, sampling rate and TypedDict size limit reach the tracer unchanged
+         ensures={"post:threading": "result is trace_calls(config_logger(ite(config is None, default_config, config)), config_k(ite(config is None, default_config, config)),"
+                                    " config_filter(ite(config is None, default_config, config)), config_rate(ite(config is None, default_config, config)))"})
